@@ -568,6 +568,9 @@ package rewriter
 //@   ensures[ready] res != nil && Ready(res)
 //@   ensures[children] BlockInv(children) && ATBL(children) && BOwner(children) == old(BOwner(children))
 //@   ensures[local:first-half-closed] EndsOK(current)
+//@   ensures[combined-not-plain] res != children ==> BLen(children) > 0 && BKind(children, BLen(children) - 1) == kindCombine
+//@   ensures[same-untouched] res == children ==> BLen(children) == old(BLen(children))
+//@        && (forall j: Int :: 0 <= j && j < BLen(children) ==> BKind(children, j) == old(BKind(children, j)))
 //@   modifies BLen(children), BKLen(children), BStmt(children), BKind(children), BChecked(children), BFrozen(children)
 
 //@ func (r *yieldRewriter) rewriteYieldCall(call, children) (following)
@@ -585,10 +588,17 @@ package rewriter
 //@ pred IsSimpleKind(s ast.Stmt) := isa(s, ExprStmt) || isa(s, AssignStmt) || isa(s, IncDecStmt) || isa(s, SendStmt) || isa(s, GoStmt)
 //@        || isa(s, DeclStmt) || isa(s, EmptyStmt) || isa(s, BranchStmt) || isa(s, ReturnStmt)
 //@ pred SimpleOrAbsent(s ast.Stmt) := isnil(s) || IsSimpleKind(s)
+// No yield is dropped (C12), same induction: NY(s) / NYList(l) / NYCases(l, n) are abstract ("no yield in a live position"), generated by
+// the `ghost` rules below; HasYield (decided by containsYield, trusted) is the ground truth for whole statements and simple parts.
+// Theorem carried through pass 2: if what a unit added to its block is all plain (native statements and implicit
+// `return seq.Normal()`), the source it was given held no live yield; contrapositive: every live yield is lowered or rejected.
+//@ pred LiveNY(l []ast.Stmt, from Int) := forall j: Int :: from <= j && j < len(l) && (forall k: Int :: from <= k && k < j ==> !isa(l[k], BranchStmt)) ==> NY(l[j])
 //@ pred LiveSup(l []ast.Stmt, from Int) := forall j: Int :: from <= j && j < len(l) && (forall k: Int :: from <= k && k < j ==> !isa(l[k], BranchStmt)) ==> Sup(l[j])
 
 //@ func (r *yieldRewriter) rewriteBlockStmt(body, kind) (res)
 //@   ghost LiveSup(body.List, 0) ==> SupList(body.List)
+//@   ghost LiveNY(body.List, 0) ==> NYList(body.List)
+//@   ensures[no-yield-dropped] AllPlain(res) ==> NYList(old(body.List))
 //@   ensures[supported] SupList(old(body.List))
 //@   reveal wf-ast
 //@   requires YRCtx(r) && body != nil && StmtList(body.List) && BodyKind(kind)
@@ -600,6 +610,7 @@ package rewriter
 //@ func (r *yieldRewriter) rewriteStmts(stmts, idx, children)
 //@   reveal wf-ast
 //@   ensures[supported] LiveSup(stmts, idx)
+//@   ensures[no-yield-dropped] AllPlain(children) ==> LiveNY(stmts, idx)
 //@   assume-obligation call[yieldRewriter.rewriteStmt].requires[yield-stmt] because A-yield-stmt
 //@   requires YRCtx(r) && StmtList(stmts) && 0 <= idx && children != nil && Ready(children) && BodyKind(BOwner(children))
 //@   ensures[inv] BlockInv(children) && BOwner(children) == old(BOwner(children)) && Shape(children)
@@ -613,11 +624,16 @@ package rewriter
 //@   ghost IsSimpleKind(stmt) ==> Sup(stmt)
 //@   ghost isa(stmt, BlockStmt) && SupList(as(stmt, BlockStmt).List) ==> Sup(stmt)
 //@   ghost isa(stmt, RangeStmt) && SupList(as(stmt, RangeStmt).Body.List) ==> Sup(stmt)      -- a range left native by pass 1 (D22)
+//@   ghost !HasYield(stmt) ==> NY(stmt)
+//@   ghost isa(stmt, BranchStmt) || isa(stmt, EmptyStmt) ==> !HasYield(stmt)      -- no expression inside
+//@   ghost isa(stmt, BlockStmt) && NYList(as(stmt, BlockStmt).List) ==> NY(stmt)
+//@   ensures[no-yield-dropped] AllPlain(children) ==> NY(stmt)
+//@   ensures[plain-keeps-block] AllPlain(children) && res != nil ==> res == children
 //@   ensures[supported] Sup(stmt)
 //@   ensures[nil-means-last-or-branch] res == nil && !isLast ==> isa(stmt, BranchStmt)
 //@   requires YRCtx(r) && ProperStmt(stmt) && children != nil && Ready(children) && BodyKind(BOwner(children))
 //@   requires isa(stmt, BlockStmt) ==> StmtList(as(stmt, BlockStmt).List)
-//@   requires[yield-stmt] isa(stmt, ExprStmt) && HasYield(stmt) ==> IsCallStmtOf(stmt, r.rewriter.yieldFunc)
+//@   requires[yield-stmt] (isa(stmt, ExprStmt) || isa(stmt, AssignStmt) || isa(stmt, IncDecStmt) || isa(stmt, SendStmt)) && HasYield(stmt) ==> IsCallStmtOf(stmt, r.rewriter.yieldFunc)
 //@   assume-obligation call[yieldRewriter.rewriteForStmt].requires[yield-stmt] because A-yield-stmt: co.Yield has no result, so a simple statement that contains a yield is a (possibly parenthesised) call statement of co.Yield; YieldFrom statements were desugared by the earlier pass
 //@   ensures[children] BlockInv(children) && BOwner(children) == old(BOwner(children)) && Shape(children)
 //@   ensures[res] res != nil ==> (res == children || fresh(res)) && BlockInv(res) && ATBL(res) && BodyKind(BOwner(res))
@@ -635,6 +651,7 @@ package rewriter
 //@   ensures[same] res == children || res == nil
 //@   ensures[nil] res == nil && children != nil ==> EndsOK(children) && BOwner(children) == kindFor
 //@   ensures[nil-only-last] res == nil && children != nil ==> isLast
+//@   ensures[prefix] children != nil ==> BLen(children) >= old(BLen(children)) && (forall j: Int :: 0 <= j && j < old(BLen(children)) ==> BKind(children, j) == old(BKind(children, j)))
 //@   ensures[inv] children != nil ==> BlockInv(children) && BOwner(children) == old(BOwner(children)) && (res != nil ==> ATBL(children)) && Shape(children)
 //@   ensures[untouched] res != nil ==> BLen(children) == old(BLen(children)) && BFrozen(children) == old(BFrozen(children)) && BChecked(children) == old(BChecked(children))
 //@        && (forall j: Int :: 0 <= j && j < BLen(children) ==> BKind(children, j) == old(BKind(children, j)) && BStmt(children, j) == old(BStmt(children, j)))
@@ -646,6 +663,9 @@ package rewriter
 //@   ghost isa(stmt.Else, BlockStmt) && SupList(as(stmt.Else, BlockStmt).List) ==> Sup(stmt.Else)
 //@   ghost SupList(stmt.Body.List) && SimpleOrAbsent(stmt.Init) && (isnil(stmt.Else) || Sup(stmt.Else)) ==> Sup(iface(stmt, IfStmt))
 //@   ensures[supported] Sup(iface(stmt, IfStmt))
+//@   ghost isa(stmt.Else, BlockStmt) && NYList(as(stmt.Else, BlockStmt).List) ==> NY(stmt.Else)
+//@   ghost !HasYield(stmt.Init) && NYList(stmt.Body.List) && (isnil(stmt.Else) || NY(stmt.Else)) ==> NY(iface(stmt, IfStmt))
+//@   ensures[no-yield-dropped] BKind(children, BLen(children) - 1) == kindTrival ==> NY(iface(stmt, IfStmt))
 //@   requires YRCtx(r) && stmt != nil && children != nil && Ready(children) && BodyKind(BOwner(children))
 //@   ensures[pushed] BlockInv(children) && ATBL(children) && BLen(children) == old(BLen(children)) + 1 && !BFrozen(children)
 //@        && (BKind(children, BLen(children) - 1) == kindTrival || BKind(children, BLen(children) - 1) == kindIf)
@@ -664,6 +684,12 @@ package rewriter
 //@   ghost SupCases(body.List, len(body.List)) && SimpleOrAbsent(deref(init)) ==> Sup(stmt)
 //@   loop #0 invariant same(cases, nil) || fresh(cases)      -- the accumulator never shares storage with the tree
 //@   loop #0 invariant SupCases(body.List, _idx)
+//@   ghost NYCases(body.List, 0)
+//@   ghost forall i: Int :: 0 <= i && i < len(body.List) && NYCases(body.List, i) && NYList(as(body.List[i], CaseClause).Body) ==> NYCases(body.List, i + 1)
+//@   ghost NYCases(body.List, len(body.List)) && !HasYield(deref(init)) ==> NY(stmt)      -- a type switch's Assign is checked by the caller (requires[assign-checked])
+//@   loop #0 invariant allCaseTrival ==> NYCases(body.List, _idx)
+//@   ensures[no-yield-dropped] AllPlain(children) ==> NY(stmt)
+//@   ensures[plain-keeps-block] AllPlain(children) ==> res == children
 //@   ensures[supported] Sup(stmt)
 //@   assume-obligation call[yieldRewriter.rewriteStmt].requires[yield-stmt] because A-yield-stmt
 //@   requires YRCtx(r) && !isnil(stmt) && init != nil && pos != nil && body != nil && CaseList(body.List)
@@ -687,12 +713,15 @@ package rewriter
 //@   reveal wf-ast
 //@   ghost SupList(stmt.Body.List) && SimpleOrAbsent(stmt.Init) && SimpleOrAbsent(stmt.Post) ==> Sup(iface(stmt, ForStmt))
 //@   ensures[supported] Sup(iface(stmt, ForStmt))
+//@   ghost !HasYield(stmt.Init) && !HasYield(stmt.Post) && NYList(stmt.Body.List) ==> NY(iface(stmt, ForStmt))
+//@   ensures[no-yield-dropped] AllPlain(children) ==> NY(iface(stmt, ForStmt))
+//@   ensures[plain-keeps-block] AllPlain(children) ==> res == children
 //@   assume-obligation call[yieldRewriter.rewriteStmt].requires[yield-stmt] because A-yield-stmt
 //@   requires YRCtx(r) && stmt != nil && children != nil && Ready(children) && BodyKind(BOwner(children))
 //@   requires WfStmt(stmt.Init) && WfStmt(stmt.Post) && WfExpr(stmt.Cond)
 //@   requires (!isnil(stmt.Init) ==> ProperStmt(stmt.Init) && !isa(stmt.Init, BlockStmt)) && (!isnil(stmt.Post) ==> ProperStmt(stmt.Post) && !isa(stmt.Post, BlockStmt))
 //@   requires !IsDefine(stmt.Init) && !IsDefine(stmt.Post)
-//@   requires[yield-stmt] HasYield(stmt.Post) ==> IsCallStmtOf(stmt.Post, r.rewriter.yieldFunc)
+//@   requires[yield-stmt] (HasYield(stmt.Post) ==> IsCallStmtOf(stmt.Post, r.rewriter.yieldFunc)) && (HasYield(stmt.Init) ==> IsCallStmtOf(stmt.Init, r.rewriter.yieldFunc))
 //@   ensures[children] BlockInv(children) && BOwner(children) == old(BOwner(children)) && Shape(children)
 //@   ensures[res] res != nil && (res == children || fresh(res)) && BlockInv(res) && ATBL(res) && BodyKind(BOwner(res))
 //@        && (res != children ==> BOwner(res) == kindDelay && EndsOK(children))
